@@ -28,7 +28,7 @@ RULE = ("Rebalancing.make_trades on generated (holdings, targets, quotes, thresh
 ASSUMPTIONS = ["ties within 1e-12 relative of the threshold / 1e-9 of an integer lot accept both outcomes",
                "whole-lot mode: the threshold is compared with the weight of the imbalance itself (untruncated), as the property words it"]
 REQUIRED = ["C12:exact-threshold", "C12:trade-set", "C12:trade-wellformed", "C12:fractional-quantity", "C12:whole-lot-truncation", "C12:no-exception"]
-REQUIRED_CATS = ["previewed-on-another-state", "via-portfolio-space", "whole-lot-with-fractional-holding", "mode:tiny", "mode:exact-at", "mode:exact-notch-below", "mode:exact-notch-above", "mode:at", "mode:below", "mode:above", "mode:sublot", "mode:absent-held", "whole-lot", "fractional"]
+REQUIRED_CATS = ["mode:balanced", "previewed-on-another-state", "via-portfolio-space", "whole-lot-with-fractional-holding", "mode:tiny", "mode:exact-at", "mode:exact-notch-below", "mode:exact-notch-above", "mode:at", "mode:below", "mode:above", "mode:sublot", "mode:absent-held", "whole-lot", "fractional"]
 REQUIRED_HITS = ["Rebalancing.make_trades"]
 TECHNIQUE = "runtime monitoring: reference model of the stated filtering rule compared with Rebalancing.make_trades on boundary-biased inputs"
 LEVEL_TEXT = ("Exploration with boundary-biased generation: the real make_trades is compared with an independent evaluation of the "
@@ -125,9 +125,14 @@ def case(ctx, i, tier):
             ctx.cat("cash-listed")
             continue
         h = hold.get(c, 0.0)
-        mode = rng.choice(["rand", "zero", "at", "below", "above", "sublot", "tiny"])
+        mode = rng.choice(["rand", "zero", "at", "below", "above", "sublot", "tiny", "balanced"])
+        if mode == "balanced" and (measure != "nr-contracts" or h == 0):
+            mode = "rand"
         modes[c] = mode
-        if mode == "zero":
+        if mode == "balanced":
+            # the target is EXACTLY what is held: nothing to trade for this contract (while others may)
+            w = h
+        elif mode == "zero":
             w = 0.0
         elif mode == "rand":
             w = rng.uniform(-1, 1.5)
